@@ -143,6 +143,10 @@ def run(chk, prog):
     # (stencil moment conditions and gate agreement decided under C04 R1/R2; re-evaluated here)
     from .common import reeval
     reeval(chk, prog, "C04", lambda i: i["rule"] in ("R1", "R2"), "R6", "R6-fokker-planck-moments", 10)
+    # ---- R7: the RF focusing the wake is balanced against rotates by the same angle the time step stands for (single angle variable =
+    # 2*pi/steps, sinusoidal slope = angle: C03 R2, R6; re-evaluated here)
+    from .common import reeval
+    reeval(chk, prog, "C03", lambda i: i["rule"] in ("R2", "R6"), "R7", "R7-angle", 6)
     # ---- RD: dimensional consistency of the quantities this property depends on (sa/dims.py) ----------------------------------------
     from . import dimrules
     nrd = dimrules.run(chk, prog, "RD")
